@@ -329,6 +329,17 @@ def run(cx):
                 r.check((val == "coast" and zero) or (val == "drive" and nonzero), "DCMotor._apply_speed/mode=drive-iff-nonzero", (m, st), f"_mode := {val!r} under {sorted(cs)}")
             else:
                 r.check(norm(st.value) == "effective", "DCMotor._apply_speed/applied=effective", (m, st), f"_applied_speed := `{norm(st.value)}`")
+    # every normal exit of _apply_speed has (re)computed both the mode and the applied speed: no early return that keeps the
+    # mode an earlier stop()/run_for() left (brake) when the same speed is applied again
+    from ..flow import MustFacts
+
+    class Stored(MustFacts):
+        def gen(self, stmt):
+            return {"stored:" + norm(t) for t in (stmt.targets if isinstance(stmt, ast.Assign) else []) if norm(t) in ("self._mode", "self._applied_speed")}
+
+    so = Stored().run_function(ap, frozenset())
+    exits = [st_ for _n, st_ in so.ret] + ([so.fall] if so.fall is not None else [])
+    r.check(bool(exits) and all({"stored:self._mode", "stored:self._applied_speed"} <= set(e) for e in exits), "DCMotor._apply_speed/every-exit-stores-mode-and-applied-speed", (m, ap), "a path returns from _apply_speed without recomputing _mode/_applied_speed: after stop() (brake) a set_speed(0) would leave the bridge braked while the command means coast")
     ss = m.func("DCMotor.set_speed")
     sl_ = Locals(ss)
     st_sp = [st for a, st in self_stores(ss) if a == "_speed"]
